@@ -1032,7 +1032,18 @@ Definition ledger : list (site * disposition) := [
   (("codemap.rs", "SpannedText::linecol", "call:expect", "col.checked_add(1).expect(""col + 1 must not wrap"")", 1%nat),
    Modelled PS_linecol_col_expect);
   (("codemap.rs", "CodeMap::span_from_instruction", "index", "self.mapping[idx]", 1%nat),
-   Modelled PS_codemap_mapping_index)
+   Modelled PS_codemap_mapping_index);
+  (* serialize.rs (the codec behind the Serialize / Deserialize instructions; an oracle of the model,
+     its totality is property C26).  Every panic-capable construct there must be listed here with the
+     reason it cannot panic: a new split_at / index / unwrap in that file breaks [ledger_complete]. *)
+  (("serialize.rs", "DeserializeCtx::deserialize_struct", "call:insert", "fields.insert(d.name.clone(),v)", 1%nat),
+   NotPanic "BTreeMap::insert");
+  (("serialize.rs", "DeserializeCtx::take_exact", "call:split_first_chunk", "self.bytes.split_first_chunk()", 1%nat),
+   NotPanic "<[u8]>::split_first_chunk::<N> returns None when fewer than N bytes remain (mapped to UnexpectedEnd)");
+  (("serialize.rs", "DeserializeCtx::pop", "call:split_off_first", "self.bytes.split_off_first()", 1%nat),
+   NotPanic "<&[u8]>::split_off_first returns None on an empty slice (mapped to UnexpectedEnd)");
+  (("serialize.rs", "DeserializeCtx::try_take_n", "call:split_off", "self.bytes.split_off(..ct)", 1%nat),
+   NotPanic "<&[u8]>::split_off(..ct) returns None when ct exceeds the length (mapped to UnexpectedEnd)")
 ].
 
 Definition site_eqb (a b : site) : bool :=
